@@ -6,13 +6,16 @@ package c04
 import (
 	"bytes"
 	"io"
+	"os"
 
 	"github.com/goatcms/goatcore/filesystem"
+	"github.com/goatcms/goatcore/filesystem/filespace/diskfs"
 	"github.com/goatcms/goatcore/filesystem/filespace/encryptfs"
 	"github.com/goatcms/goatcore/filesystem/filespace/encryptfs/cipherfs/extcfs"
 	"github.com/goatcms/goatcore/filesystem/filespace/memfs"
 	"github.com/goatcms/goatcore/filesystem/fscache"
 	"github.com/goatcms/goatcore/filesystem/fshelper"
+	_ "github.com/goatcms/goatcore/zzverif/hostfs"
 	"github.com/goatcms/goatcore/zzverif/nd"
 	"github.com/goatcms/goatcore/zzverif/reftree"
 )
@@ -22,10 +25,13 @@ const (
 	bEnc
 	bCache
 	bMemView
+	bDisk
 	bNBackends
 )
 
-var zzBackendName = []string{"memfs", "encrypted", "cache", "memview"}
+var zzBackendName = []string{"memfs", "encrypted", "cache", "memview", "disk"}
+
+var zzCleanup = func() {}
 
 func zzBackend(kind int) filesystem.Filespace {
 	m, _ := memfs.NewFilespace()
@@ -40,6 +46,19 @@ func zzBackend(kind int) filesystem.Filespace {
 		c, err := fscache.NewMemCache(m)
 		nd.Assume(err == nil)
 		return c
+	case bDisk:
+		// the disk filespace over the host model (natively: a scratch directory)
+		base := "/r"
+		if nd.Concrete() {
+			d, err := os.MkdirTemp("", "zzc04")
+			nd.Assume(err == nil)
+			base = d
+			zzCleanup = func() { os.RemoveAll(d) }
+		}
+		nd.Assume(os.MkdirAll(base, 0755) == nil)
+		dfs, err := diskfs.NewFilespace(base)
+		nd.Assume(err == nil)
+		return dfs
 	case bMemView:
 		nd.Assume(m.MkdirAll("v", filesystem.DefaultUnixDirMode) == nil)
 		v, err := m.Filespace("v")
@@ -71,6 +90,7 @@ func zzReadAll(r io.Reader, bufSize int) ([]byte, bool) {
 func zzStream(kind int) {
 	name := zzBackendName[kind]
 	fs := zzBackend(kind)
+	defer func() { zzCleanup() }()
 	if nd.Choose("preexisting", 2) == 1 {
 		old := nd.BytesUpTo("old", nd.Param("O", 3))
 		nd.Assume(fs.WriteFile("f", old, filesystem.DefaultUnixFileMode) == nil)
@@ -82,13 +102,19 @@ func zzStream(kind int) {
 	}
 	nchunks := nd.Choose("nchunks", nd.Param("C", 2)+1)
 	var all []byte
+	// all chunks go through ONE caller-owned buffer (as io.Copy does) that is
+	// overwritten after every Write and after Close
+	buf := make([]byte, 2)
 	for i := 0; i < nchunks; i++ {
 		c := nd.BytesUpTo("chunk", 2)
-		n, err := w.Write(c)
+		k := copy(buf, c)
+		n, err := w.Write(buf[:k])
 		nd.Assert(err == nil && n == len(c), "C04/"+name+"/write-ok")
 		all = append(all, c...)
+		buf[0], buf[1] = buf[0]^0xff, buf[1]^0xff
 	}
 	nd.Assert(w.Close() == nil, "C04/"+name+"/close-ok")
+	buf[0], buf[1] = 0x55, 0xaa
 	got, err := fs.ReadFile("f")
 	nd.Assert(err == nil, "C04/"+name+"/readfile-ok")
 	if err == nil {
@@ -109,6 +135,7 @@ func ZZVerifC04StreamMem()     { zzStream(bMem) }
 func ZZVerifC04StreamEnc()     { zzStream(bEnc) }
 func ZZVerifC04StreamCache()   { zzStream(bCache) }
 func ZZVerifC04StreamMemView() { zzStream(bMemView) }
+func ZZVerifC04StreamDisk()    { zzStream(bDisk) }
 
 // ZZVerifC04Copy: the stream-based copy helpers reproduce a source file or
 // tree byte-for-byte in a destination that already holds other content, and
